@@ -32,7 +32,7 @@ if os.path.exists(os.path.join(src, 'notes.txt')):
     shutil.copy(os.path.join(src, 'notes.txt'), dst + '/notes.txt')
 meta['accepted'] = bool(meta.get('applies') and meta.get('builds_and_vets') and meta.get('baseline_358_pass'))
 json.dump(meta, open(dst + '/meta.json', 'w'), indent=1)
-r = sh('./bin/flamecheck -audit -property benign/%s' % ident, cwd='/verif')
+r = sh('./bin/flamecheck -audit -audit-all -property benign/%s' % ident, cwd='/verif')
 fa = [l for l in r.stdout.splitlines() if l.startswith('AUDIT-WARNING')]
 meta['quiet_at_first_evaluation'] = not fa and 'false-alarm=0' in r.stdout
 meta['alarms_at_first_evaluation'] = [re.sub(r'^AUDIT-WARNING ', '', l)[:600] for l in fa]
